@@ -1228,17 +1228,40 @@ package trzsz
 // C05  transparency of the wrapper when idle (filter.go)
 // ===========================================================================
 
-//@ # Typed input: when no prompt pipe, no transfer and no zmodem session is active and drag detection
+//@ # Typed input: when no prompt pipe, no transfer and no zmodem session (zmodem disabled, or enabled
+//@ # with no session) is active and drag detection
 //@ # is off (as read by this very call - any schedule), the chunk is written to the server unmodified,
 //@ # in order, exactly once, and nothing else is written anywhere.
 //@ func TrzszFilter.sendInput
 //@   ensures [C05] result_of("atomic.Pointer.Load[io.PipeWriter]", 0, 0) == nil && \
 //@       result_of("atomic.Pointer.Load[github.com/trzsz/trzsz-go/trzsz.trzszTransfer]", 0, 0) == nil && \
-//@       !old(filter.options.EnableZmodem) && !result_of("atomic.Bool.Load", 0, 0) && result_of("writeAll", 0, 0) == nil ==> \
+//@       (!old(filter.options.EnableZmodem) || \
+//@        result_of("atomic.Pointer.Load[github.com/trzsz/trzsz-go/trzsz.zmodemTransfer]", 0, 0) == nil) && \
+//@       !result_of("atomic.Bool.Load", 0, 0) && result_of("writeAll", 0, 0) == nil ==> \
 //@       wlen[old(filter.serverIn)] == old(wlen)[old(filter.serverIn)] + len(buf) && \
 //@       (forall k int {wlog[old(filter.serverIn)][k]} :: old(wlen)[old(filter.serverIn)] <= k && k < wlen[old(filter.serverIn)] ==> \
 //@           wlog[old(filter.serverIn)][k] == buf[k - old(wlen)[old(filter.serverIn)]]) && \
 //@       (forall w int {wlen[w]} :: w != old(filter.serverIn) ==> wlen[w] == old(wlen)[w])
+//@   # with drag detection on, input that is not a list of existing paths (and not the start of a
+//@   # Windows path that may continue in the next chunk) is forwarded just the same
+//@   ensures [C05] result_of("atomic.Pointer.Load[io.PipeWriter]", 0, 0) == nil && \
+//@       result_of("atomic.Pointer.Load[github.com/trzsz/trzsz-go/trzsz.trzszTransfer]", 0, 0) == nil && \
+//@       (!old(filter.options.EnableZmodem) || \
+//@        result_of("atomic.Pointer.Load[github.com/trzsz/trzsz-go/trzsz.zmodemTransfer]", 0, 0) == nil) && \
+//@       result_of("atomic.Bool.Load", 0, 0) && old(filter.dragInputBuffer) == nil && \
+//@       result_of("detectDragFiles", 0, 0) == nil && \
+//@       !result_of("detectDragFiles", 0, 3) && result_of("writeAll", 0, 0) == nil ==> \
+//@       wlen[old(filter.serverIn)] == old(wlen)[old(filter.serverIn)] + len(buf) && \
+//@       (forall k int {wlog[old(filter.serverIn)][k]} :: old(wlen)[old(filter.serverIn)] <= k && k < wlen[old(filter.serverIn)] ==> \
+//@           wlog[old(filter.serverIn)][k] == buf[k - old(wlen)[old(filter.serverIn)]])
+//@ end
+
+//@ func TrzszFilter.resetDragFiles
+//@   assigns filter.dragFiles, lockHeld
+//@ end
+
+//@ # ASSUMED frame: looks at the file system only
+//@ func detectDragFiles trusted pure
 //@ end
 
 //@ # Remote output: with no trace log, whatever the output pump hands to the local terminal on the
